@@ -215,7 +215,33 @@ def containment(ctx: Ctx):
     ctx.require_min("partition obligations", 6)
 
 
+def zero_base_semantics(ctx: Ctx):
+    """NaN exactly where the base is zero: the quotient must be IEEE division of count by base.
+    A guarded division (`np.divide(..., where=..., out=zeros)`), `nan_to_num` or a `np.where` patch
+    replaces the NaN of a zero base by a number."""
+    fam = [(MM, c) for c in ("_RowProportions", "_ColumnProportions", "_TableProportions", "_MarginTableProportion", "_ColumnProportionsSmoothed")] + [(SM, "_TableProportions")]
+    for short, cname in fam:
+        ci = ctx.repo.cls(short, cname)
+        for name, m in ci.members.items():
+            for n in ast.walk(m.node):
+                if not isinstance(n, ast.Call):
+                    continue
+                f = u(n.func)
+                where = f"{short}::{cname}.{name}"
+                if f == "np.divide" and any(k.arg in ("where", "out") for k in n.keywords):
+                    out = next((k.value for k in n.keywords if k.arg == "out"), None)
+                    fill = u(out.func) if isinstance(out, ast.Call) else None
+                    if fill in ("np.zeros", "np.zeros_like", "np.ones", "np.ones_like") or (fill == "np.full" and "nan" not in u(out)):
+                        ctx.violated("zero-base", where, u(n)[:160], "count / base (NaN where the base is zero)", "a guarded division writes a number where the base is zero; the proportion must be NaN exactly there")
+                    else:
+                        ctx.undecided("zero-base", where, u(n)[:160], "count / base (NaN where the base is zero)")
+                elif f in ("np.nan_to_num",):
+                    ctx.violated("zero-base", where, u(n)[:160], "count / base (NaN where the base is zero)", "NaN of a zero base is replaced by a number")
+    ctx.held("zero-base", "proportion family (matrix + stripe)", "no guarded division / nan_to_num in the proportion measures", "plain IEEE division under errstate")
+
+
 def divisions(ctx: Ctx):
+    zero_base_semantics(ctx)
     for cname, members in (
         ("_RowProportions", ["blocks", "_inserted_rows", "_inserted_columns"]),
         ("_ColumnProportions", ["_base_values", "_subtotal_columns", "_subtotal_rows", "_intersections"]),
